@@ -182,6 +182,15 @@ func sideMap(m map[[2]int][]*SideRec) map[string][]SideRec {
 
 // RunOnce runs p in sess with a watchdog and observes the result.
 func RunOnce(sess *Sess, p Prog, cacheDir string, timeout time.Duration) (o Obs, res *exec.Result) {
+	return runOnce(sess, p, cacheDir, nil, timeout)
+}
+
+// RunArgOnce runs a program whose node 0 is {Op:"arg"} over the Result arg.
+func RunArgOnce(sess *Sess, p Prog, arg *exec.Result, timeout time.Duration) (o Obs, res *exec.Result) {
+	return runOnce(sess, p, "", arg, timeout)
+}
+
+func runOnce(sess *Sess, p Prog, cacheDir string, arg *exec.Result, timeout time.Duration) (o Obs, res *exec.Result) {
 	run := NextRun()
 	rec := NewRec(run)
 	defer DropRec(run)
@@ -207,7 +216,11 @@ func RunOnce(sess *Sess, p Prog, cacheDir string, timeout time.Duration) (o Obs,
 			}
 			ch <- r
 		}()
-		r.res, r.err = sess.Run(ctx, Interp, p, run, cacheDir)
+		if arg != nil {
+			r.res, r.err = sess.Run(ctx, InterpArg, p, run, cacheDir, arg)
+		} else {
+			r.res, r.err = sess.Run(ctx, Interp, p, run, cacheDir)
+		}
 	}()
 	var r rr
 	select {
